@@ -117,6 +117,7 @@ type c12Fixture struct {
 	bodies   [][]byte // Codec.Write of each value (deterministic: map-free types)
 	abs      []spec.AbsVal
 	file     []byte
+	lay      ref.FileLayout // where the blocks of file are
 	mapFree  bool
 	timeStrs []string
 	timeWant []time.Time
@@ -163,6 +164,10 @@ func c12Build() {
 		}
 		ec := encCase{Type: e.Spec, Records: recs, Compression: []string{"null", "deflate", "snappy"}[fi%3], BlockSize: 30}
 		if f.file, _, err = encodeCase(ec); err != nil {
+			c12Err = err
+			return
+		}
+		if f.lay, err = ref.ParseFile(f.file); err != nil {
 			c12Err = err
 			return
 		}
@@ -273,7 +278,7 @@ func runC12(c c12Case) (bool, []string, error) {
 				touch("codec", op.Kind)
 			case "encodefile":
 				touch("registry", op.Kind)
-			case "readabort":
+			case "readabort", "readdamaged":
 				touch("pool", op.Kind)
 				touch("codec", op.Kind)
 			case "readfile":
@@ -642,6 +647,52 @@ func c12Run(g int, op c12Op, banks chan *avro.ResourceBank) error {
 		if i != len(f.abs) {
 			return fmt.Errorf("%d records read, %d written", i, len(f.abs))
 		}
+	case "readdamaged":
+		// a file that ends early or is damaged: the read fails, as it would alone, after
+		// delivering intact records only — and whatever the failed read leaves behind
+		// (buffers, banks) must not reach the reads other goroutines are making
+		if len(f.lay.Blocks) == 0 {
+			return nil
+		}
+		bi := (op.Arg / 4) % len(f.lay.Blocks)
+		bl := f.lay.Blocks[bi]
+		before := 0
+		for _, b := range f.lay.Blocks[:bi] {
+			before += int(b.Count)
+		}
+		var data []byte
+		switch op.Arg % 4 {
+		case 0:
+			data = f.file[:bl.SizeEnd+(bl.PayloadEnd-bl.SizeEnd)/2] // the block's payload is incomplete
+		case 1:
+			data = f.file[:bl.PayloadEnd+5] // the marker is incomplete
+		case 2:
+			data = append([]byte(nil), f.file...)
+			data[bl.PayloadEnd+3] ^= 0x10 // the marker is wrong
+		default:
+			data = f.file[:bl.CountEnd] // the block's length is missing
+		}
+		i := 0
+		err := avro.ReadFile(bytes.NewReader(data), reflect.New(f.typ).Elem().Interface(), func(val unsafe.Pointer, rb *avro.ResourceBank) error {
+			if i >= len(f.abs) {
+				return fmt.Errorf("more records than written")
+			}
+			if err := spec.Match(f.abs[i], spec.Abs(f.ts, false, reflect.NewAt(f.typ, val).Elem()), fmt.Sprintf("record[%d] of a damaged file", i)); err != nil {
+				return err
+			}
+			i++
+			rb.Close()
+			return nil
+		})
+		if err == nil {
+			return fmt.Errorf("a damaged file (variant %d, block %d) was read without an error", op.Arg%4, bi)
+		}
+		if strings.Contains(err.Error(), "record[") || strings.Contains(err.Error(), "more records") {
+			return err
+		}
+		if i < before || i > before+int(bl.Count) {
+			return fmt.Errorf("a damaged file (variant %d, block %d) delivered %d records; the blocks before the damage hold %d, the damaged one %d", op.Arg%4, bi, i, before, bl.Count)
+		}
 	case "readabort":
 		// the callback gives up at record k but keeps that record and its bank (the
 		// bank is the callback's to close, also when it returns an error); other
@@ -749,7 +800,7 @@ func c12Run(g int, op c12Op, banks chan *avro.ResourceBank) error {
 func drawC12(t *rapid.T) c12Case {
 	var c c12Case
 	n := gen.UniformRange(t, "goroutines", 2, 8)
-	kinds := []string{"schema", "codec", "register", "decode", "encode", "readfile", "closebanks", "time", "decode", "encode", "time", "readfile", "encodefile", "readabort", "evolved", "exotic"}
+	kinds := []string{"schema", "codec", "register", "decode", "encode", "readfile", "closebanks", "time", "decode", "encode", "time", "readfile", "encodefile", "readabort", "evolved", "exotic", "readdamaged"}
 	for g := 0; g < n; g++ {
 		var p []c12Op
 		m := gen.UniformRange(t, "nops", 5, 40)
